@@ -66,6 +66,16 @@ CHECKS = {
    note="Trusted: TLC, Context.tla/Hasher.tla. Real schemes are pre-customised to cheap default costs; scheme self-flags other than bsdi's even cost "
         "and the deprecated 'all' pseudo-scheme are not modelled. Two categories (default + 'admin').",
    technique="TLA+ spec (Context.tla) model-checked with TLC + spec-to-implementation behaviour replay on real CryptContext objects"),
+ "C10": dict(cat=MC, design="DESIGN.md §3 C10",
+   text="MC_ContextLife.tla (over Context.tla) models load / update (overlay of exactly the given keys) / copy / dict and INI round trips on two "
+        "context objects, with invalid changes and an injected customisation fault; TLC checks that live configurations stay valid, failed changes "
+        "change nothing, update is exact, empty update is a no-op and the copy is independent; random 10-step life-cycle behaviours are replayed on two "
+        "real CryptContext objects and after EVERY step (also failed ones) both objects' to_dict() and a decision probe (default per category, "
+        "identify on standing hashes, deprecated flag and cost window of every scheme per category) are compared with the spec; INI text is "
+        "also read independently with configparser.",
+   note="Trusted: TLC, Context.tla. The k-th-customisation fault is injected through a test handler registered at run time (no /repo change). "
+        "Key rendering/parsing is bound through the harness's rendering table rather than a token-level TLA+ grammar.",
+   technique="TLA+ spec (MC_ContextLife.tla over Context.tla) model-checked with TLC + spec-to-implementation behaviour replay with fault injection"),
 }
 PENDING = {}
 props = [json.loads(l) for l in open(os.path.join(HERE, "properties.jsonl"))]
